@@ -83,6 +83,10 @@ def step (d : DS) (line : String) : DS × String :=
     | some x, some u, some g =>
       (d, s!"nv={showRatList (d.normalizeVect true x)} uv={showRatList (d.unnormalizeVect true u)} ng={showRatList (d.normalizeGrad g)} ug={showRatList (d.unnormalizeGrad g)} rv={showRatList (d.roundVect x)}")
     | _, _, _ => (d, "bad-op")
+  | ["sub", ns] =>
+    let ns := parseStrList ns
+    let cur := match d.subCur ns with | some x => showRatList x | none => "_"
+    (d, s!"lb={showOList (d.subLb ns)} ub={showOList (d.subUb ns)} cur={cur} idxds={showNatList (d.subIdx ns true)} idxreq={showNatList (d.subIdx ns false)}")
   | ["member", x] =>
     match parseRatList? x with
     | some x => (d, if d.isMember tol x then "1" else "0")
